@@ -56,3 +56,43 @@ Theorem C17_refuted_digraph_in_comment_width :
       eval_obs [] [] FLen v' <> eval_obs [] [] FLen v.
 Proof. exact digraph_in_comment_width_refuted. Qed.
 Print Assumptions C17_refuted_digraph_in_comment_width.
+
+(* ---- composition at FILE level (Proofs/LexCompose.v), unbounded in the file: replacing the text of a // comment by
+   admissible text of the same length - IF both runs of the tokenizer stand at the comment with the same items so far (the
+   prefix assumption: tested on the real lexer for every sampled pair, not proved - the sub-parsers look ahead) THEN the
+   complete results agree: the COMMENT token keeps type, line, column and raw span, EVERY later item, the final state and
+   its diagnostics are identical, and every covered observation of the token value is unchanged.  With
+   C17_value_reads_covered the only other assumption is the reviewed reader table. *)
+From NV Require Import Proofs.LexCompose.
+
+Theorem C17_comment_replace_file_obs_partial : forall (uw ud : N -> bool) src src' k x accp v v' tail items xf guard other f,
+  List.length src' = List.length src ->
+  run uw ud k (init src) [] (with_rest x (47%N :: 47%N :: v ++ tail)) accp ->
+  run uw ud k (init src') [] (with_rest x (47%N :: 47%N :: v' ++ tail)) accp ->
+  plain_content KLine v = true -> plain_content KLine v' = true -> List.length v' = List.length v -> line_end tail ->
+  replace_inv f = true ->
+  lex uw ud src = Ok (items, xf) ->
+  exists later t t',
+    items = rev accp ++ ITok t (off x) (off x + (2 + List.length v)) :: later /\
+    lex uw ud src' = Ok (rev accp ++ ITok t' (off x) (off x + (2 + List.length v)) :: later, xf) /\
+    t_type t' = t_type t /\ t_line t' = t_line t /\ t_col t' = t_col t /\
+    t_val t = Some (47%N :: 47%N :: v) /\ t_val t' = Some (47%N :: 47%N :: v') /\
+    eval_obs guard other f (47%N :: 47%N :: v') = eval_obs guard other f (47%N :: 47%N :: v).
+Proof. exact comment_replace_file_obs_partial. Qed.
+Print Assumptions C17_comment_replace_file_obs_partial.
+
+(* the generic composition step: same items so far, next turn yields T resp. T' and the same state => the complete results
+   agree except for T / T' *)
+Theorem C17_file_compose : forall (uw ud : N -> bool) src src' k X X' accp T T' Y items xf,
+  List.length src' = List.length src ->
+  run uw ud k (init src) [] X accp -> run uw ud k (init src') [] X' accp ->
+  step uw ud X = StepItem T Y -> step uw ud X' = StepItem T' Y ->
+  lex uw ud src = Ok (items, xf) ->
+  exists later, items = rev accp ++ T :: later /\ lex uw ud src' = Ok (rev accp ++ T' :: later, xf).
+Proof. exact file_compose. Qed.
+Print Assumptions C17_file_compose.
+
+(* the string the property excludes is the one of #include: the rule that reads it tests the directive name for "include" only *)
+Theorem C17_include_string_guarded : include_guard_literals = [Some (s "h"); Some (s "include")].
+Proof. exact include_string_guarded. Qed.
+Print Assumptions C17_include_string_guarded.
